@@ -154,7 +154,7 @@ theorem argFields (g : ArgSpec) :
     simp [renderArg, Xml.findtext, Xml.find, Xml.children, optLeaf, leaf_text]
 
 theorem parseArgs_render (a : ActionSpec) :
-    parseArgs (renderAction a) = a.args.filterMap fun g => completeArg g.name g.direction g.related := by
+    parseArgs (renderAction a) = a.args.filterMap fun g => completeArg g.name g.direction (g.related.map stripWs) := by
   obtain ⟨nm, args⟩ := a
   have hall : (renderAction ⟨nm, args⟩).findall2 .service .argumentList .argument = args.map renderArg := by
     have hn : ∀ x ∈ args.map renderArg, Xml.isNamed .service .argument x = true := by
@@ -235,6 +235,25 @@ theorem lookups_id : ∀ (l pre : List ArgM), ((pre ++ l).map fun a => (a.name, 
         · cases h2 : x.direction == a.direction
           · simp [h2]
           · exact absurd (by simpa using h2) (this (by simpa using h1))
+    · have := ih (pre ++ [a]) (by simpa [List.append_assoc] using hn)
+      simpa [List.append_assoc] using this
+
+/-- looking every element up by a key that is distinct within the list finds that very element -/
+theorem findIdx_self {α β : Type} [BEq β] [LawfulBEq β] (key : α → β) : ∀ (l pre : List α), ((pre ++ l).map key).Nodup →
+    l.map (fun a => findIdxFrom (fun x => key x == key a) (pre ++ l) 0) = (List.range' pre.length l.length).map some := by
+  intro l
+  induction l with
+  | nil => intro pre _; rfl
+  | cons a r ih =>
+    intro pre hn
+    simp only [List.map_cons, List.length_cons, List.range'_succ]
+    congr 1
+    · rw [findIdxFrom_append]
+      · simp [findIdxFrom]
+      · intro x hx
+        rw [List.map_append, List.map_cons] at hn
+        have := (List.nodup_append.mp hn).2.2 (key x) (List.mem_map.mpr ⟨x, hx, rfl⟩) (key a) (by simp)
+        simpa using this
     · have := ih (pre ++ [a]) (by simpa [List.append_assoc] using hn)
       simpa [List.append_assoc] using this
 
